@@ -64,7 +64,7 @@ def plan(tier, seed):
 def floors(tier):
     return {"distinct_nontrivial": 300, "op:new": 3000, "op:sym": 1000, "op:rule": 500, "op:clear": 300, "op:query": 3000,
             "cls:undecorated_subclass": 500, "cls:hand_written": 500, "cls:query_after_clear": 200,
-            "cls:inferred_instances_queried": 60, "op:predq": 300, "re:cls:no_domain_spelling:.*name.*": 500, "re:cls:no_domain_spelling:T\\(\\)": 500, "op:abandon": 300, "op:exc": 200, "op:newclass": 150, "op:pred_raises": 100, "op:toggle_caching": 100, "op:block_nodomain": 60, "cls:live_iterator_started_in": 100, "cls:live_iterator_started_out": 100, "queries_with_subclass_instances": 300}
+            "cls:inferred_instances_queried": 300, "op:predq": 300, "re:cls:no_domain_spelling:.*name.*": 500, "re:cls:no_domain_spelling:T\\(\\)": 500, "op:abandon": 300, "op:exc": 200, "op:newclass": 150, "op:pred_raises": 100, "op:toggle_caching": 100, "op:block_nodomain": 60, "cls:live_iterator_started_in": 100, "cls:live_iterator_started_out": 100, "queries_with_subclass_instances": 300}
 
 
 def gen_case(rng):
@@ -107,6 +107,10 @@ def gen_case(rng):
         else:
             ops.append(["query", rng.choice(["main", "main", "out"]), rng.randrange(ncls)])
     ops.append(["query", "main", 0])
+    if any(o[0] == "rule" for o in ops) and rng.random() < 0.5:
+        # ... and over the classes of the inferred instances (which rule fired into which class varies: both are asked)
+        ops.append(["query", "out", 0])
+        ops.append(["query", "out", 1])
     return {"classes": classes, "out_classes": out_classes, "ops": ops}
 
 
